@@ -159,11 +159,18 @@ def _mc(P):
     return np.inf if mc == 'inf' else None if mc == 'none' else mc
 
 
+_FREQ_KEYS = ('f', 'fl', 'fh', 'f0', 'f1', 'flb', 'fub', 'fc', 'fm')
+
+
 def _build(case, level, pol, cal_obj=None):
     """one realisation of the stimulus of the case; returns a 1-D float array"""
     from psiaudio import stim
     t, fs, P = case['type'], case['fs'], case.get('par', {})
     K = case.get('kinds', {})
+    if K.get('freq') in ('int', 'npint'):
+        # whole-number frequencies handed over as Python / NumPy integers (fl=2000 rather than 2000.0)
+        conv = int if K['freq'] == 'int' else np.int64
+        P = {k: (conv(v) if k in _FREQ_KEYS and isinstance(v, float) and v == int(v) else v) for k, v in P.items()}
     level = _as_kind(level, K.get('level', 'py'))
     if pol is not None:
         pol = {'int': int, 'float': float, 'npint': np.int8}[K.get('pol', 'int')](pol)
@@ -783,6 +790,8 @@ def _oracle_stim(case, res):
         return f'{tag}: raised {res["err"]}: {res["msg"]}'
     if not res['finite']:
         return f'{tag}: samples are not finite'
+    if res['peak'] == 0.0 and res['n'][0] > 0:
+        return f'{tag}: every one of the {res["n"][0]} samples is exactly zero (a stimulus at a finite level is not silence)'
     if res.get('regain_ok') is False:
         return (f'{tag}: after the fixed gain of an already used calibration was set to {case["regain"]} dB the stimulus differs '
                 f'from the one through a fresh calibration with that gain (level off by {res.get("regain_db")} dB)')
@@ -960,7 +969,8 @@ def _seed(rng):
 def _kinds(rng, which, t):
     """how the numbers are handed over: Python float / int, NumPy scalars; the level relation is the same for all"""
     lv = rng.choice(['py', 'py', 'int', 'np64', 'np32']) if which is not None else rng.choice(['py', 'np64'])
-    return {'level': lv, 'pol': rng.choice(['int', 'float', 'npint']), 'fs': rng.choice(['float', 'int'])}
+    return {'level': lv, 'pol': rng.choice(['int', 'float', 'npint']), 'fs': rng.choice(['float', 'int']),
+            'freq': rng.choice(['float', 'float', 'int', 'npint'])}
 
 
 def _stim_case(rng, t, which, fs=None):
